@@ -19,6 +19,7 @@ import (
 	"github.com/ethereum/go-ethereum/common"
 	ethtypes "github.com/ethereum/go-ethereum/core/types"
 	"github.com/ethereum/go-ethereum/core/types/goattypes"
+	lockingmodule "github.com/goatnetwork/goat/x/locking/module"
 	lockingtypes "github.com/goatnetwork/goat/x/locking/types"
 	"verifharness/sim"
 )
@@ -216,17 +217,35 @@ type LOp struct {
 // LBlock is one explored block of the locking world.
 type LBlock struct {
 	Dt       int64    `json:"dt_s"`
+	DtMs     int64    `json:"dt_ms,omitempty"` // added to Dt: block times with a sub-second part
+	// Reimport: before this block the module's state is exported, its store wiped, and the export
+	// (through its JSON form, as in a genesis file) imported again - the state hand-over of a chain
+	// restarted from an export. Votes and evidence go on as if nothing had happened, so for the
+	// reference model the step is a no-op.
+	Reimport bool `json:"reimport,omitempty"`
 	Absent   []int    `json:"absent,omitempty"`
 	Evidence []EvSpec `json:"evidence,omitempty"`
 	Ops      []LOp    `json:"ops,omitempty"`
 	Gas      string   `json:"gas,omitempty"`
 }
 
+// Delta is the time this block lies after its predecessor.
+func (b LBlock) Delta() time.Duration {
+	return time.Duration(b.Dt)*time.Second + time.Duration(b.DtMs)*time.Millisecond
+}
+
 func (b LBlock) String() string {
 	var parts []string
-	parts = append(parts, fmt.Sprintf("dt=%d", b.Dt))
+	if b.DtMs != 0 {
+		parts = append(parts, fmt.Sprintf("dt=%d.%03d", b.Dt, b.DtMs))
+	} else {
+		parts = append(parts, fmt.Sprintf("dt=%d", b.Dt))
+	}
 	if len(b.Absent) > 0 {
 		parts = append(parts, fmt.Sprintf("absent=%v", b.Absent))
+	}
+	if b.Reimport {
+		parts = append(parts, "state-exported-and-imported")
 	}
 	for _, e := range b.Evidence {
 		parts = append(parts, fmt.Sprintf("evidence(v%d,-%db,-%ds)", e.Val, e.AgeBlocks, e.AgeSecs))
@@ -409,7 +428,7 @@ func (w *World) Step(st *LState, b *LBlock, wantMid bool) (*LState, *StepResult)
 	k := w.N.App.LockingKeeper
 	res := &StepResult{}
 	h := st.Height + 1
-	t := st.Time.Add(time.Duration(b.Dt) * time.Second)
+	t := st.Time.Add(b.Delta())
 	votes := w.Votes(st, h, b.Absent)
 	misb := w.Misbehavior(h, t, b.Evidence)
 	res.Votes = votes
@@ -426,6 +445,23 @@ func (w *World) Step(st *LState, b *LBlock, wantMid bool) (*LState, *StepResult)
 				res.Panic = p
 			}
 		}()
+		if b.Reimport {
+			gs := lockingmodule.ExportGenesis(bctx, k)
+			cdc := w.N.App.AppCodec()
+			var back lockingtypes.GenesisState
+			cdc.MustUnmarshalJSON(cdc.MustMarshalJSON(gs), &back)
+			store := bctx.KVStore(w.N.App.GetKey(lockingtypes.StoreKey))
+			var keys [][]byte
+			it := store.Iterator(nil, nil)
+			for ; it.Valid(); it.Next() {
+				keys = append(keys, append([]byte{}, it.Key()...))
+			}
+			it.Close()
+			for _, key := range keys {
+				store.Delete(key)
+			}
+			lockingmodule.InitGenesis(bctx, k, back)
+		}
 		res.BeginErr = k.BeginBlocker(bctx)
 		if res.BeginErr != nil {
 			return
